@@ -388,7 +388,20 @@ POOL = {
 }
 M_TYPES = ["text", "Text", "application", "image", "a"]
 M_SUBS = ["html", "HTML", "plain", "json", "xml", "xhtml+xml", "png", "b"]
-M_PARAMS = [("level", "1"), ("level", "2"), ("charset", "utf-8"), ("version", "1"), ("v", "x")]
+# parameter values include tokens at the edge of the token set (underscore, punctuation): such a value must come back
+# from parse_accept_header unquoted, or the textual parameter comparison of MIMEAccept stops matching the offer
+M_PARAMS = [("level", "1"), ("level", "2"), ("charset", "utf-8"), ("version", "1"), ("v", "x"), ("profile", "json_api"),
+            ("header", "present_utf8"), ("v", "a_b"), ("k", "!#$%&'*+-.^_`|~"), ("fmt", "x.y-z"), ("n", "0_9"), ("format", "flowed"),
+            ("profile", "full"), ("version", "2")]
+
+
+def _pick_params(rng, n: int):
+    ps, seen = [], set()
+    for k, v in rng.sample(M_PARAMS, min(len(M_PARAMS), n + 3)):
+        if k not in seen and len(ps) < n:
+            seen.add(k)
+            ps.append((k, v))
+    return ps
 
 WEIRD_ITEMS = ["", "*", "**", "*/*", "*/html", "text/", "/html", "/", "text/html/x", "text", "text /html", "text/ html",
                "text/html;", "text/html ; level=1", "text/html;level=1;level=2", "*/*;x=1", "text/*;x=1", "a/b;c", "-x", "_",
@@ -442,11 +455,7 @@ def _gen_range(rng, fam: str):
         if r < 0.32:
             return f"{t}/*", f"{t}/*", (1, 0), (t.lower(), "*", ())
         s = rng.choice(M_SUBS)
-        ps = []
-        if rng.random() < 0.3:
-            ps = rng.sample(M_PARAMS, rng.choice([1, 1, 2]))
-            if len({k for k, _ in ps}) != len(ps):
-                ps = ps[:1]
+        ps = _pick_params(rng, rng.choice([1, 1, 2, 2, 3])) if rng.random() < 0.4 else []
         sep = rng.choice([";", "; ", " ; "])
         sent = f"{t}/{s}" + "".join(f"{sep}{k}={v}" for k, v in ps)
         exp = f"{t}/{s}" + "".join(f"; {k}={v}" for k, v in ps)
@@ -458,9 +467,19 @@ def _gen_range(rng, fam: str):
 def _gen_offer(rng, fam: str) -> str:
     if fam == "mime":
         t, s = rng.choice(M_TYPES), rng.choice(M_SUBS)
-        ps = rng.sample(M_PARAMS, 1) if rng.random() < 0.25 else []
+        ps = _pick_params(rng, rng.choice([1, 1, 2])) if rng.random() < 0.25 else []
         return f"{t}/{s}" + "".join(f"{rng.choice([';', '; ', ' ; ', ' ;'])}{k}={v}" for k, v in ps)
     return rng.choice(POOL[fam][1])
+
+
+def _offer_for_range(rng, mk) -> str:
+    """an offer the media range mk = (type, subtype, params) is meant to match: the same parameters, written in
+    another order and with other separators"""
+    t, s, ps = mk
+    ps = list(ps)
+    rng.shuffle(ps)
+    t = rng.choice([t, t.capitalize()])
+    return f"{t}/{s}" + "".join(f"{rng.choice([';', '; ', ' ; '])}{p}" for p in ps)
 
 
 def _gen_structured(rng, fam: str):
@@ -491,8 +510,18 @@ def _gen_structured(rng, fam: str):
                 qv = _q_ok(q)
         parts.append(sent + qtxt)
         meta.append((exp, spec, mk, qv))
+    specific = [m[2] for m in meta if fam == "mime" and m[2][1] != "*"]
+    if specific and rng.random() < 0.4:
+        # a less specific range covering one of the specific ones, with its own q
+        t = rng.choice(specific)[0]
+        cover = rng.choice([(f"{t}/*", (1, 0), (t, "*", ())), ("*/*", (0, 0), ("*", "*", ()))])
+        q = rng.choice(["0.001", "0.5", "0.3", "0", "0.9"])
+        pos = rng.randint(0, len(parts))
+        parts.insert(pos, f"{cover[0]};q={q}")
+        meta.insert(pos, (cover[0], cover[1], cover[2], _q_ok(q)))
     sep = rng.choice([",", ", ", ", ", " , "])
-    offers = [_gen_offer(rng, fam) for _ in range(rng.choice([1, 2, 2, 3, 3, 4, 5]))]
+    offers = [_offer_for_range(rng, rng.choice(specific)) if specific and rng.random() < 0.5 else _gen_offer(rng, fam)
+              for _ in range(rng.choice([1, 2, 2, 3, 3, 4, 5]))]
     clean = all(m[3] != "unclear" for m in meta)
     return sep.join(parts), offers, (meta if clean else None)
 
@@ -690,14 +719,18 @@ def _primary(s: str) -> str:
 
 def _oracle(chk: Check, fam: str, header, offers, obs, acc, meta, inp):
     """obs: observation of the implementation; meta: generator's knowledge of the header (clean cases) or None"""
+    n = len(chk.failures)
+    late = _oracle_core(chk, fam, header, offers, obs, acc, meta, inp)
+    if late and len(chk.failures) == n:
+        chk.fail(late[0], late[1], inp)
+
+
+def _oracle_core(chk: Check, fam: str, header, offers, obs, acc, meta, inp):
     items = obs["items"]
+    late = None      # a failure of the list-shape clauses, reported only if the negotiation clauses hold
     if meta is not None:
         # ---- ignored: exactly the items with a well-formed q in [0, 1] (or no q) are present, with that q
         want = [(exp, spec, key, qv) for exp, spec, key, qv in meta if qv is not None]
-        if sorted((v, float(q)) for v, q in items) != sorted((e, float(qv)) for e, _, _, qv in want):
-            chk.fail("ignored", f"parsed list {items!r} is not the set of items with a valid q "
-                     f"{[(e, float(qv)) for e, _, _, qv in want]!r}", inp)
-            return
         # ---- order: descending (specificity, q), client order among equals  (own insertion sort)
         exp_list = []
         for e in want:
@@ -705,61 +738,63 @@ def _oracle(chk: Check, fam: str, header, offers, obs, acc, meta, inp):
             while k < len(exp_list) and (exp_list[k][1], exp_list[k][3]) >= (e[1], e[3]):
                 k += 1
             exp_list.insert(k, e)
-        if [(v, float(q)) for v, q in items] != [(e[0], float(e[3])) for e in exp_list]:
-            chk.fail("order", f"parsed order {items!r}, expected {[(e[0], float(e[3])) for e in exp_list]!r}", inp)
-            return
+        if sorted((v, float(q)) for v, q in items) != sorted((e, float(qv)) for e, _, _, qv in want):
+            late = ("ignored", f"parsed list {items!r} is not the set of items with a valid q "
+                    f"{[(e, float(qv)) for e, _, _, qv in want]!r}")
+        elif [(v, float(q)) for v, q in items] != [(e[0], float(e[3])) for e in exp_list]:
+            late = ("order", f"parsed order {items!r}, expected {[(e[0], float(e[3])) for e in exp_list]!r}")
         ranges = [(spec, qv, key) for _, spec, key, qv in want]
 
         def matcher(o):
             return lambda key: _spec_match(fam, key, o)
     else:
         if acc is None:
-            return
+            return late
         # outside the clean grammar the ranges are what the implementation parsed; matching and specificity are
         # the implementation's own (the selection rule is still checked independently)
         ranges = [(acc._specificity(v), Fraction(q).limit_denominator(10 ** 18), v) for v, q in items]
         keys = [(acc._specificity(v), q) for v, q in items]
         if any(keys[i] < keys[i + 1] for i in range(len(keys) - 1)):
             chk.fail("order", f"parsed list {items!r} is not sorted by (specificity, q) descending", inp)
-            return
+            return late
 
         def matcher(o):
             return lambda key: acc._value_matches(o, key)
     try:
         qual = [_offer_quality(ranges, matcher(o)) for o in offers]
     except ValueError:
-        return        # an invalid offer (MIMEAccept raises for it): no negotiation to judge
+        return late
     for o, ql, got_q, got_in in zip(offers, qual, obs["quals"], obs["ins"]):
         if isinstance(got_q, str) or isinstance(got_in, str):
             continue
         if float(got_q) != (0.0 if ql is None else float(ql[1])):
             chk.fail("quality", f"quality({o!r}) = {got_q}, the most specific matching range has "
                      f"{None if ql is None else float(ql[1])}", inp)
-            return
+            return late
         if got_in != (ql is not None):
             chk.fail("contains", f"({o!r} in accept) = {got_in}, but a range matches: {ql is not None}", inp)
-            return
+            return late
     bm = obs["bm"]
     if fam != "lang" or any(q is not None and q[1] > 0 for q in qual):
         bad = _choice_ok(offers, qual, bm)
         if bad:
             chk.fail("optimal", "best_match: " + bad, inp)
-        return
-    # ---- LanguageAccept fallbacks: no offer has a positive quality on exact matching
+        return late
     prim = [((int(_primary(key) != "*"),), q, _primary(key)) for _, q, key in ranges]
     qual2 = [_offer_quality(prim, lambda key, o=o: key == "*" or key.lower() == o.lower()) for o in offers]
     if any(q is not None and q[1] > 0 for q in qual2):
         bad = _choice_ok(offers, qual2, bm)
         if bad:
             chk.fail("language-fallback", "first fallback (primary tags of the accepted values): " + bad, inp)
-        return
+        return late
     try:
         qual3 = [_offer_quality(ranges, matcher(_primary(o))) for o in offers]
     except ValueError:
-        return
+        return late
     bad = _choice_ok(offers, qual3, bm)
     if bad:
         chk.fail("language-fallback", "second fallback (primary tags of the offers): " + bad, inp)
+    return late
 
 
 # ---------------------------------------------------------------------- the run
